@@ -181,6 +181,12 @@ func c03Check(run *mon.Run, b *c03Batch, label string) {
 	var res []bool
 	var err error
 	for rep2 := 0; rep2 < 2; rep2++ { // fresh internal randomness each time
+		if rep2 == 1 && len(b.pks) >= 2 {
+			// the second run follows, on this goroutine, calls that are rejected for an input error
+			_, _ = crypto.BatchVerifyBLSSignaturesOneMessage(b.pks[:len(b.pks)-1], b.sigs, b.msg, b.h)
+			_, _ = crypto.BatchVerifyBLSSignaturesOneMessage(b.pks, b.sigs, b.msg, nil)
+			_, _ = crypto.BatchVerifyBLSSignaturesOneMessage(nil, nil, b.msg, b.h)
+		}
 		if run.Guard("BatchVerifyBLSSignaturesOneMessage", rep, func() { res, err = crypto.BatchVerifyBLSSignaturesOneMessage(b.pks, b.sigs, b.msg, b.h) }) {
 			return
 		}
